@@ -58,13 +58,32 @@ def lcRun (self : Aid) (inc : Nat) : Nat → List Obs → Except String Nat
     | .ok p' => lcRun self inc p' os
     | .error e => .error e
 
+/-- did `a` fail (a `failed` event) after incarnation `inc` had handled its own `OnTerminated`, with no
+other handler of `a` in between (i.e. the failing handler is that `OnTerminated` handler)? or did it
+fail right after handling `OnTerminate`? -/
+def farewellFailed (evs : List Event) (a : Aid) (inc : Nat) : Bool :=
+  let rec go (armed : Bool) : List Event → Bool
+    | [] => false
+    | .handled a' i o _ :: es =>
+      if a' == a then
+        go (i == inc && (match o with | .terminated w => w == a | .terminate => true | _ => false)) es
+      else go armed es
+    | .failed a' :: es => if a' == a && armed then true else go armed es
+    | _ :: es => go armed es
+  go false evs
+
 /-- C03 for a whole run: every incarnation's observation sequence is a prefix of a well-formed
 lifecycle; an incarnation that was replaced by a restart (a later incarnation exists) ended with
 `Restarting Terminate Terminated` -/
 def c03 (evs : List Event) : Option String :=
   (incarnations evs).findSome? fun (a, i) =>
     match lcRun a i 0 (obsOf evs a i) with
-    | .error e => some s!"c03:{e}"
+    | .error e =>
+      -- a farewell handler (OnTerminate / OnTerminated) that failed leaves the termination or restart
+      -- half-done; the next notification re-runs the farewell sequence on the same incarnation
+      if e.startsWith "after-own-terminated" && farewellFailed evs a i then
+        some "c03:after-own-terminated-following-failed-farewell-handler"
+      else some s!"c03:{e}"
     | .ok p =>
       if (incarnations evs).any (fun (a', i') => a' == a && i' > i) && p != 5 then
         some "c03:replaced-incarnation-not-finished"
@@ -76,6 +95,13 @@ def parentOf (evs : List Event) (c : Aid) : Option Aid :=
   evs.findSome? fun e => match e with
     | .spawned p c' => if c' == c then some p else none
     | _ => none
+
+/-- is `x` a proper ancestor of `a` (parents taken from the `spawned` events; at most `fuel` levels)? -/
+def isAncestor (evs : List Event) (x : Aid) : Nat → Aid → Bool
+  | 0, _ => false
+  | fuel + 1, a => match parentOf evs a with
+    | some p => p == x || isAncestor evs x fuel p
+    | none => false
 
 def idxTerminatedSelf (evs : List Event) (a : Aid) : Option Nat :=
   (List.range evs.length).find? fun i => match evs[i]? with
@@ -125,27 +151,35 @@ def c05complete (evs : List Event) (gone : Aid → Bool) : Option String :=
       else none
     | _ => none
 
-/-- in a quiescent final state every actor whose termination was requested is gone -/
+/-- index of the first `OnTerminate` handled by `a` -/
+def beganAt (evs : List Event) (a : Aid) : Option Nat :=
+  (List.range evs.length).find? fun k => match evs[k]? with
+    | some (Event.handled a' _ .terminate _) => a' == a
+    | _ => false
+
+/-- `d` is `t` or one of its descendants -/
+def inSubtree (evs : List Event) (t d : Aid) : Bool := d == t || isAncestor evs t evs.length d
+
+/-- in a quiescent final state every actor whose termination was requested is gone. When it is not,
+the label says why: a handler of the actor or of one of its descendants failed after that actor had
+begun to terminate (it then stays `terminating`/half-terminated and everybody above waits), or somebody
+in the subtree spawned a child after it had begun to terminate (nobody tells that child to stop), or —
+no excuse — the request simply had no effect. -/
 def c05requests (evs : List Event) (gone : Aid → Bool) : Option String :=
   evs.findSome? fun e => match e with
     | .killreq t =>
       if t ≥ 2 && t < ghostBase && !gone t then
-        -- did a handler of `t` fail after `t` had begun to terminate? (then it stays `terminating`)
-        let began := (List.range evs.length).find? fun k => match evs[k]? with
-          | some (Event.handled a _ .terminate _) => a == t
-          | _ => false
-        match began with
-        | some k =>
-          if ((List.range evs.length).any fun j => j > k && (match evs[j]? with
-                | some (Event.failed a) => a == t
-                | _ => false))
-          then some s!"c05:terminate-request-for-{t}-stuck-handler-failed-during-termination"
-          else if ((List.range evs.length).any fun j => j > k && (match evs[j]? with
-                | some (Event.spawned p c) => p == t && !gone c
-                | _ => false))
-          then some s!"c05:terminate-request-for-{t}-waits-for-child-spawned-during-termination"
-          else some s!"c05:terminate-request-for-{t}-had-no-effect"
-        | none => some s!"c05:terminate-request-for-{t}-had-no-effect"
+        if ((List.range evs.length).any fun j => match evs[j]? with
+              | some (Event.failed d) => inSubtree evs t d &&
+                  (match beganAt evs d with | some k => k < j | none => false)
+              | _ => false)
+        then some s!"c05:terminate-request-for-{t}-stuck-handler-failed-during-termination"
+        else if ((List.range evs.length).any fun j => match evs[j]? with
+              | some (Event.spawned p c) => inSubtree evs t p && !gone c &&
+                  (match beganAt evs p with | some k => k < j | none => false)
+              | _ => false)
+        then some s!"c05:terminate-request-for-{t}-waits-for-child-spawned-during-termination"
+        else some s!"c05:terminate-request-for-{t}-had-no-effect"
       else none
     | _ => none
 
@@ -161,13 +195,17 @@ def countWatchRequests (evs : List Event) (o t : Aid) : Nat :=
     | .watch o' t' => o' == o && t' == t
     | _ => false).length
 
-/-- nobody is told more often about one termination than it asked for: at most once — a repeated
-`Watch` on an address that is already dead is answered each time, which is not counted against the
-property (the observer asked again) -/
+/-- nobody is told more often about one termination than it asked for. The termination itself tells
+the parent once and every watcher once (a parent that also watches: once); besides, every `Watch`
+that reaches the address after the actor is gone is answered on the spot. So an observer handles at
+most one notification per `Watch` request it issued, plus one if it is the parent (and at most one when
+it issued none) — a repeated `Watch` on a dead address is answered each time, which is not counted
+against the property (the observer asked again) -/
 def c06dup (evs : List Event) : Option String :=
   evs.findSome? fun e => match e with
     | .handled o _ (.terminated t) _ =>
-      if o != t && countNotified evs o t > max 1 (countWatchRequests evs o t)
+      if o != t && countNotified evs o t >
+          max 1 (countWatchRequests evs o t + (if parentOf evs t == some o then 1 else 0))
       then some s!"c06:duplicate-notification-{o}-about-{t}" else none
     | _ => none
 
@@ -226,5 +264,38 @@ def c04directive (evs : List Event) : Option String :=
     | .handled a _ .launch _ :: es => go (stopped.filter (· != a)) es
     | _ :: es => go stopped es
   go [] evs
+
+/-- "Resume continues with the same instance and the queued messages": `stuck` lists the alive
+actors that still hold messages when nothing can run any more (no runner anywhere, no timer armed).
+Such an actor is acceptable only while its supervisor has not decided; if the last word about it was
+a Resume decision, the directive did not take effect. -/
+def c04stuck (evs : List Event) (stuck : List Aid) : Option String :=
+  stuck.findSome? fun a =>
+    let last : Option (Option Directive) := evs.reverse.findSome? fun e => match e with
+      | .failed a' => if a' == a then some none else none
+      | .decided _ v d _ => if v == a then some (some d) else none
+      | _ => none
+    match last with
+    | some (some .resume) => some s!"c04:resumed-actor-{a}-never-continues-with-its-queued-messages"
+    | _ => none
+
+/-- "Escalate passes the decision to the next ancestor": after `sup` answered Escalate for the
+`c`-th accident of `v`, the next decision about that accident — if any — is taken by a proper
+ancestor of `sup` (ancestors without a strategy pass the record on without deciding), never by `sup`
+itself again nor by anybody outside the path to the root -/
+def c04escalate (evs : List Event) : Option String :=
+  let rec go : List Event → Option String
+    | [] => none
+    | .decided sup v .escalate c :: es =>
+      let next := es.findSome? fun e => match e with
+        | .decided sup' v' _ c' => if v' == v && c' == c then some sup' else none
+        | _ => none
+      match next with
+      | some sup' =>
+        if isAncestor evs sup' evs.length sup then go es
+        else some s!"c04:escalated-decision-about-{v}-taken-by-{sup'}-who-is-no-ancestor-of-{sup}"
+      | none => go es
+    | _ :: es => go es
+  go evs
 
 end MV.Spec.ActorSys
